@@ -178,6 +178,7 @@ def run_styles(case):
             t.write(r, c, f"t{r}{c}" if (r + c) % 2 else r * 4 + c)
     before = all_styles(t) if case.get("read_first") else None
     applied = {}
+    made = []
     for i in range(case["n_styles"]):
         kw = {}
         for a, vs in vals.items():
@@ -196,6 +197,7 @@ def run_styles(case):
             else:
                 t.write(r, c, f"styled{i}", style=st)
             applied[(r, c)] = (dict(kw), st.name)
+        made.append((st, cells))
 
     def check(table, where):
         for (r, c), (kw, name) in applied.items():
@@ -227,6 +229,30 @@ def run_styles(case):
         err = check(t2, "saved and reopened")
         if err:
             return {"detail": err, "class": "reopened"}
+        if case.get("modify"):
+            # history: after the first save, change attributes of the styles in use on the SAME open document - each to another value of
+            # its list, the "nothing" values first (0.0 indents, False, black) - save again and reopen
+            for st, cells in made:
+                changed = {}
+                for a, vs in vals.items():
+                    if a in ("bg_color",) or rnd.random() < 0.3:
+                        continue
+                    cur = getattr(st, a)
+                    other = [v for v in vs if (tuple(v) if isinstance(v, tuple) else v) != (tuple(cur) if isinstance(cur, tuple) else cur)]
+                    if other:
+                        setattr(st, a, other[0])
+                        changed[a] = other[0]
+                for pos in cells:
+                    if pos in applied and applied[pos][1] == st.name:
+                        applied[pos] = ({**applied[pos][0], **changed}, st.name)
+            err = check(t, "open document after changing the styles in use")
+            if err:
+                return {"detail": err, "class": "open-document"}
+            pm = os.path.join(td, "m.numbers")
+            doc.save(pm)
+            err = check(Document(pm).sheets[0].tables[0], "styles changed after a first save, saved again and reopened")
+            if err:
+                return {"detail": err, "class": "second-save"}
         if before is not None:
             now = all_styles(t2)
             for pos, snap in before.items():
@@ -338,7 +364,7 @@ def main():
         for order in (0, 1):
             cases.append({"kind": "style-pair", "variant": v, "order": order})
     for s in range(160 if big else 40):
-        cases.append({"kind": "styles", "seed": a.seed * 1000 + s, "n_styles": 1 + s % 3, "read_first": s % 2 == 0, "image": s % 5 == 0})
+        cases.append({"kind": "styles", "seed": a.seed * 1000 + s, "n_styles": 1 + s % 3, "read_first": s % 2 == 0, "image": s % 5 == 0, "modify": s % 2 == 1})
     return common.run(cases, run_case)
 
 
